@@ -563,6 +563,28 @@ func (a *effAnalysis) recordSpawn(f *ssa.Function, in ssa.Instruction, fv ssa.Va
 	case *ssa.MakeClosure:
 		s.Fn = x.Fn.(*ssa.Function)
 		s.Closure = x
+		if group == nil {
+			// the classic idiom: wg.Add(1); go func() { defer wg.Done(); … }() — the
+			// group is the captured WaitGroup on which the closure calls Done
+			instrsOf(s.Fn, func(i2 ssa.Instruction) {
+				var cc *ssa.CallCommon
+				switch y := i2.(type) {
+				case *ssa.Defer:
+					cc = &y.Call
+				case *ssa.Call:
+					cc = &y.Call
+				}
+				if cc == nil || cc.StaticCallee() == nil || cc.StaticCallee().String() != "(*sync.WaitGroup).Done" || len(cc.Args) != 1 {
+					return
+				}
+				recv := cc.Args[0]
+				for bi, fvar := range s.Fn.FreeVars {
+					if recv == ssa.Value(fvar) && bi < len(x.Bindings) {
+						s.Group = x.Bindings[bi]
+					}
+				}
+			})
+		}
 	case *ssa.Function:
 		s.Fn = x
 	}
